@@ -6,7 +6,9 @@
 (*   step   {a, r, st}    a: the call (a pop carries the consumer c), r:   *)
 (*                        its reply (external calls), st[c] = {s, r}:      *)
 (*                        s = "ret" (c's Pop returned r during this step), *)
-(*                        "parked" (sync.Cond.Wait) or "idle"              *)
+(*                        "parked" (blocked inside Pop) or "idle"; a burst *)
+(*                        step carries a.acts (calls issued back to back   *)
+(*                        by one goroutine) and their replies rs           *)
 (*   stress {...}         summary of a free-running producers / consumers  *)
 (*                        / closer run, judged at its quiescent end        *)
 (* One step = the external action, then as many Wake steps as it takes to  *)
@@ -16,10 +18,11 @@ EXTENDS QueueWake, Json, IOUtils
 
 TraceLog == ndJsonDeserialize(IOEnv.VERIF_TRACE)
 
-VARIABLES l, phase, rets
-tvars == <<allwvars, l, phase, rets>>
+VARIABLES l, phase, rets,
+          bi      \* burst step: index of the next call of the burst (0: not in a burst)
+tvars == <<allwvars, l, phase, rets, bi>>
 
-TraceInit == l = 1 /\ phase = "ready" /\ rets = {} /\ WInitWith("q", 0, 0)
+TraceInit == l = 1 /\ phase = "ready" /\ rets = {} /\ bi = 0 /\ WInitWith("q", 0, 0)
 
 TReset(e) ==
   /\ phase = "ready"
@@ -29,30 +32,43 @@ TReset(e) ==
   /\ cst' = [c \in Cons |-> "idle"] /\ cany' = [c \in Cons |-> FALSE]
   /\ cres' = [c \in Cons |-> R("none", 0)]
   /\ last' = [a |-> [op |-> "init"], r |-> Ok]
-  /\ l' = l + 1 /\ UNCHANGED <<phase, rets>>
+  /\ l' = l + 1 /\ UNCHANGED <<phase, rets, bi>>
 
 (* the call of the step *)
 TBegin(e) ==
   /\ phase = "ready" /\ phase' = "settle" /\ l' = l
-  /\ IF e.a.op = "pop"
-     THEN /\ PopCall(e.a.c, e.a.any)
-          /\ rets' = IF cst'[e.a.c] = "idle" THEN {e.a.c} ELSE {}
-     ELSE /\ External(e.a, e.r)
-          /\ rets' = {}
+  /\ CASE e.a.op = "pop" ->
+             /\ PopCall(e.a.c, e.a.any)
+             /\ rets' = IF cst'[e.a.c] = "idle" THEN {e.a.c} ELSE {}
+             /\ bi' = 0
+        [] e.a.op = "burst" ->       \* nothing has happened yet; the calls follow one by one
+             /\ rets' = {} /\ bi' = 1 /\ UNCHANGED allwvars
+        [] OTHER ->
+             /\ External(e.a, e.r)
+             /\ rets' = {} /\ bi' = 0
+
+(* a burst: one goroutine issues the calls e.a.acts back to back, without waiting for *)
+(* quiescence in between; notified consumers may run between any two of them          *)
+TBurst(e) ==
+  /\ phase = "settle" /\ e.a.op = "burst" /\ bi \in 1..Len(e.a.acts)
+  /\ External(e.a.acts[bi], e.rs[bi])
+  /\ bi' = bi + 1
+  /\ UNCHANGED <<l, phase, rets>>
 
 (* notified consumers run, in any order *)
 TWake ==
   /\ phase = "settle"
   /\ \E c \in Cons : Wake(c) /\ rets' = IF cst'[c] = "idle" THEN rets \cup {c} ELSE rets
-  /\ UNCHANGED <<l, phase>>
+  /\ UNCHANGED <<l, phase, bi>>
 
 (* quiescence: the logged picture is the stable state *)
 TEnd(e) ==
   /\ phase = "settle" /\ Stable
+  /\ (e.a.op = "burst" => bi = Len(e.a.acts) + 1)
   /\ \A c \in Cons :
         IF c \in rets THEN e.st[c].s = "ret" /\ e.st[c].r = cres[c]
                       ELSE e.st[c].s = cst[c]
-  /\ phase' = "ready" /\ rets' = {} /\ l' = l + 1
+  /\ phase' = "ready" /\ rets' = {} /\ bi' = 0 /\ l' = l + 1
   /\ UNCHANGED allwvars
 
 (* free-running stress, judged at its quiescent end: every consumer returned *)
@@ -67,13 +83,13 @@ StressOK(e) ==
 TStress(e) ==
   /\ phase = "ready"
   /\ IF StressOK(e) THEN TRUE ELSE FALSE      \* (IF: evaluated as a plain state predicate)
-  /\ l' = l + 1 /\ UNCHANGED <<allwvars, phase, rets>>
+  /\ l' = l + 1 /\ UNCHANGED <<allwvars, phase, rets, bi>>
 
 TraceNext ==
   \/ /\ l <= Len(TraceLog)
      /\ LET e == TraceLog[l] IN
           CASE e.ev = "reset"  -> TReset(e)
-            [] e.ev = "step"   -> TBegin(e) \/ TEnd(e)
+            [] e.ev = "step"   -> TBegin(e) \/ TBurst(e) \/ TEnd(e)
             [] e.ev = "stress" -> TStress(e)
             [] OTHER -> FALSE
   \/ TWake
